@@ -3,7 +3,7 @@
 set -e
 P=$1
 p=$(echo "$P" | tr 'A-Z' 'a-z')
-V=/verif
+V="$(cd "$(dirname "$0")/.." && pwd)"
 B=$V/ocaml/build/$P
 mkdir -p "$B"
 cd "$B"
